@@ -216,8 +216,21 @@ class TrigTime:
                 cls.dow2int[name[0:3]] = idx
 
     @classmethod
-    async def wait_until(
+    async def wait_until(cls, ast_ctx, **kwargs):
+        """Wait for zero or more triggers, until an optional timeout."""
+        subscriptions = []
+        try:
+            return await cls._wait_until(subscriptions, ast_ctx, **kwargs)
+        finally:
+            # on every exit, including an exception in a trigger expression and
+            # cancellation of the waiting task
+            for table, key, notify_q in subscriptions:
+                table.notify_del(key, notify_q)
+
+    @classmethod
+    async def _wait_until(
         cls,
+        subscriptions,
         ast_ctx,
         state_trigger=None,
         state_check_now=True,
@@ -322,6 +335,7 @@ class TrigTime:
             )
             if len(state_trig_ident) > 0:
                 await State.notify_add(state_trig_ident, notify_q)
+                subscriptions.append((State, state_trig_ident, notify_q))
         if event_trigger is not None:
             if isinstance(event_trigger, str):
                 event_trigger = [event_trigger]
@@ -332,13 +346,9 @@ class TrigTime:
                     logger_name=ast_ctx.get_logger_name(),
                 )
                 Function.install_ast_funcs(event_trig_expr)
-                try:
-                    event_trig_expr.parse(event_trigger[1], mode="eval")
-                except:
-                    if len(state_trig_ident) > 0:
-                        State.notify_del(state_trig_ident, notify_q)
-                    raise
+                event_trig_expr.parse(event_trigger[1], mode="eval")
             Event.notify_add(event_trigger[0], notify_q)
+            subscriptions.append((Event, event_trigger[0], notify_q))
         if mqtt_trigger is not None:
             if isinstance(mqtt_trigger, str):
                 mqtt_trigger = [mqtt_trigger]
@@ -349,13 +359,9 @@ class TrigTime:
                     logger_name=ast_ctx.get_logger_name(),
                 )
                 Function.install_ast_funcs(mqtt_trig_expr)
-                try:
-                    mqtt_trig_expr.parse(mqtt_trigger[1], mode="eval")
-                except:
-                    if len(state_trig_ident) > 0:
-                        State.notify_del(state_trig_ident, notify_q)
-                    raise
+                mqtt_trig_expr.parse(mqtt_trigger[1], mode="eval")
             await Mqtt.notify_add(mqtt_trigger[0], notify_q, encoding=mqtt_trigger_encoding)
+            subscriptions.append((Mqtt, mqtt_trigger[0], notify_q))
         if webhook_trigger is not None:
             if isinstance(webhook_trigger, str):
                 webhook_trigger = [webhook_trigger]
@@ -366,15 +372,11 @@ class TrigTime:
                     logger_name=ast_ctx.get_logger_name(),
                 )
                 Function.install_ast_funcs(webhook_trig_expr)
-                try:
-                    webhook_trig_expr.parse(webhook_trigger[1], mode="eval")
-                except:
-                    if len(state_trig_ident) > 0:
-                        State.notify_del(state_trig_ident, notify_q)
-                    raise
+                webhook_trig_expr.parse(webhook_trigger[1], mode="eval")
             if webhook_methods is None:
                 webhook_methods = {"POST", "PUT"}
             Webhook.notify_add(webhook_trigger[0], webhook_local_only, webhook_methods, notify_q)
+            subscriptions.append((Webhook, webhook_trigger[0], notify_q))
 
         time0 = time.monotonic()
 
@@ -583,14 +585,6 @@ class TrigTime:
                     notify_type,
                 )
 
-        if len(state_trig_ident) > 0:
-            State.notify_del(state_trig_ident, notify_q)
-        if event_trigger is not None:
-            Event.notify_del(event_trigger[0], notify_q)
-        if mqtt_trigger is not None:
-            Mqtt.notify_del(mqtt_trigger[0], notify_q)
-        if webhook_trigger is not None:
-            Webhook.notify_del(webhook_trigger[0], notify_q)
         if exc:
             raise exc
         return ret
